@@ -16,7 +16,8 @@ From WV Require Import Model.ChanFault Proof.ChanFaultSpec Proof.ChanFaultWorker
                        Proof.ChanFaultOnce Proof.ChanFaultWitness Proof.ChanFaultIso.
 Import ListNotations.
 
-(* the full statements (g ranges over configurations with wc_close g = true, the code as it is, too) *)
+(* the full statements (g ranges over all configurations, the code as it is -- wc_close g = true,
+   init_guarded g = false -- among them) *)
 Definition C13_loop_full : Prop := forall g sched, loop_ok (trace g sched).
 Definition C13_listener_full : Prop := forall g sched, listener_ok (run g sched).
 Definition C13_once_full : Prop := forall g sched, once_ok (run g sched) (trace g sched).
@@ -41,6 +42,11 @@ Print Assumptions C13_loop_refuted.
 Theorem C13_listener_partial : forall g sched, no_setup_fault (trace g sched) -> listener_ok (run g sched).
 Proof. exact listener_partial. Qed.
 Print Assumptions C13_listener_partial.
+
+(* with the repair of F17 (channel construction inside handle_accept's try): every execution *)
+Theorem C13_listener_repaired : forall g sched, init_guarded g = true -> listener_ok (run g sched).
+Proof. exact listener_repaired. Qed.
+Print Assumptions C13_listener_repaired.
 
 Theorem C13_listener_refuted : ~ C13_listener_full.
 Proof. intro H. destruct listener_refuted_w as [_ N]. apply N. apply H. Qed.
